@@ -5,7 +5,8 @@ CONSTANTS
   MaxSigMut = 1
   LegacyAccepted = FALSE
   ResignKeepsCache = TRUE
-INVARIANTS TypeOK SenderIsSigner ExactFieldsAndChain MalleableRejected
-PROPERTIES PoolHitExact AnswerIsRecover
+  ServeUnchecked = FALSE
+INVARIANTS TypeOK SenderIsSigner ExactFieldsAndChain MalleableRejected PoolCheckedIsVerified
+PROPERTIES PoolHitExact AnswerIsRecover BlockAcceptsOnlyVerified BlockAcceptsVerified
 VIEW View
 CHECK_DEADLOCK FALSE
